@@ -3,5 +3,7 @@ NEXT Next
 INVARIANT CodonInv
 INVARIANT PairInv
 INVARIANT CharInv
+INVARIANT PairDistInv
+INVARIANT DecInv
 INVARIANT ThmInv
 CHECK_DEADLOCK FALSE
